@@ -107,6 +107,8 @@ class DataPacketQueue(utils.EventEmitter):
         """Enqueue a packet associated with a connection"""
         self._packets.appendleft((packet, connection_handle))
         self._queued += 1
+        # The connection has a pending packet from now on, even while it waits
+        self._connection_state[connection_handle].drained.clear()
         self._check_queue()
 
         if self._packets:
@@ -168,7 +170,9 @@ class DataPacketQueue(utils.EventEmitter):
             # Only the buffers held by this connection can have been released
             packet_count = connection_state.in_flight
             connection_state.in_flight = 0
-        if connection_state.in_flight == 0:
+        if connection_state.in_flight == 0 and not any(
+            handle == connection_handle for (_, handle) in self._packets
+        ):
             connection_state.drained.set()
 
         if packet_count <= self._in_flight:
